@@ -59,4 +59,12 @@ PROPS = {
         "level_text": "Proof by induction over all finite histories (requests from any pipes with any routing headers, Recv/Send on any number of contexts, slow and failing reply pipes, the requesting pipe closing at any moment, contexts opened and closed) that every reply handed to a pipe went to the pipe of the request it answers with exactly that request's routing header, that each context's backtrace is that of its own last Recv, that Send with nothing pending fails with protocol-state and no effect, that a reply to a departed connection is discarded, and that raw sockets route by the first header word; the same executable machine is compared with protocol/rep, respondent, xrep, xrespondent on random histories and an independent oracle checks each transmitted reply against the request it answers.",
         "level_note": COMMON_NOTE + "Chains of devices are covered as compositions of single hops (C09 proves the per-hop header algebra); the end-to-end device runs are in C09's harness.",
     },
+    "C08": {
+        "obl": ["Obl.Hop"],
+        "sites": ["protocol/xbus", "protocol/xstar"],
+        "assumptions": ["atomic-step granularity; topologies are modelled as forests re-rooted at the sender with pairwise distinct member ids"],
+        "technique": "Lean 4 state machine for bus/xbus/star/xstar (fan-out except source, forwarding by the receiver with the hop guard regenerated from xstar) and a structural-induction theorem over all finite loop-free topologies; machine compared step by step with the four real protocols; real inproc topologies as oracle",
+        "level_text": "Proof that a BUS send is transmitted only to pipes other than the one named by the raw header, unchanged, and reaches every idle other peer; that BUS receive paths never forward; that a STAR member forwards what arrives to all and only its other peers with the hop byte bumped; and, by structural induction over every finite forest (any tree re-rooted at any sender, ids distinct), that flooding with this rule delivers every message to every other member exactly once and never to its sender. The executable machine is compared with protocol/bus, xbus, star, xstar on random histories (forwarding headers naming live / dead / malformed ids, hop bytes 0..8, slow and failing peers) and small real BUS meshes/chains and STAR stars/trees are run end to end.",
+        "level_note": COMMON_NOTE + "Queue overflow ('queue space permitting') is part of the machine; concurrent sends in the real topologies are sequentialised by the harness.",
+    },
 }
